@@ -200,6 +200,24 @@ class TupV(ListV):
         return "Tuple%r" % (self.items,)
 
 
+class NamedTupV(TupV):
+    """instance of a typing.NamedTuple class: a tuple whose items also have names"""
+
+    def __init__(self, cls, names, items):
+        TupV.__init__(self, items)
+        self.cls, self.names = cls, list(names)
+
+    def __repr__(self):
+        return "%s(%s)" % (self.cls.name, ", ".join("%s=%r" % kv for kv in zip(self.names, self.items)))
+
+
+class PartialV:
+    """functools.partial(target, *args, **kwargs)"""
+
+    def __init__(self, target, args, kwargs):
+        self.target, self.args, self.kwargs = target, list(args), dict(kwargs)
+
+
 class SetV(ListV):
     def __repr__(self):
         return "Set%r" % (self.items,)
@@ -810,7 +828,7 @@ class Ev:
             raise Undecided("truth value of an element without children (use `is not None`)")
         if isinstance(v, Lenient):
             raise Undecided("truth of the unmodelled object %r" % (v,))
-        if isinstance(v, (Obj, MatchV, EnumMember, Ctor, ClassRef, FuncV, PatternV, PyFunc)):
+        if isinstance(v, (Obj, MatchV, EnumMember, Ctor, ClassRef, FuncV, PatternV, PyFunc, PartialV)):
             return True
         raise Undecided("truth of %r is not decidable%s" % (v, " at line %s" % node.lineno if node is not None else ""))
 
@@ -1029,6 +1047,16 @@ class Ev:
             if v.closed:
                 raise _Raise(node, "%r has no attribute %s" % (v, attr), "AttributeError")
             raise AnalysisError("attribute %s of %r is not modelled (line %s)" % (attr, v, getattr(node, "lineno", "?")))
+        if isinstance(v, NamedTupV):
+            if attr in v.names:
+                return v.items[v.names.index(attr)]
+            if attr == "_fields":
+                return TupV([Str.lit(n) for n in v.names])
+            if attr == "_asdict":
+                return PyFunc(lambda a, k: DictV(dict(zip(v.names, v.items))), "_asdict")
+            if attr == "_replace":
+                return PyFunc(lambda a, k: NamedTupV(v.cls, v.names, [k.get(n, x) for n, x in zip(v.names, v.items)]), "_replace")
+            return ("method", v, attr)
         if isinstance(v, ElemV):
             if attr in ("tag", "text", "tail", "attrib"):
                 return getattr(v, attr)
@@ -1588,6 +1616,24 @@ class Ev:
                         except Undecided:
                             raise
                     raise _Raise(e, "%r is not a valid %s" % (args[0], c.name))
+                if any(b.split(".")[-1] == "NamedTuple" for b in c.bases):
+                    names = list(c.field_order)
+                    vals = {}
+                    if len(args) > len(names):
+                        raise _Raise(e, "too many arguments for %s" % c.name, "TypeError")
+                    for n_, a_ in zip(names, args):
+                        vals[n_] = a_
+                    for k_, v_ in kwargs.items():
+                        if k_ not in names or k_ in vals:
+                            raise _Raise(e, "unexpected argument %s for %s" % (k_, c.name), "TypeError")
+                        vals[k_] = v_
+                    for n_ in names:
+                        if n_ not in vals:
+                            d_ = c.class_assigns.get(n_)
+                            if d_ is None:
+                                raise _Raise(e, "missing argument %s for %s" % (n_, c.name), "TypeError")
+                            vals[n_] = self.ev(d_, {"__mod__": c.mod}, c.mod)
+                    return NamedTupV(c, names, [vals[n_] for n_ in names])
                 got = self.repo.find_method(c, "__init__")
                 if c.name in self.instantiate:
                     o = Obj(c, {}, closed=True)
@@ -1598,6 +1644,8 @@ class Ev:
                     return Ctor(c.name, dict(kwargs, **{"arg%d" % i: a for i, a in enumerate(args)}))
                 owner, init = got
                 return Ctor(c.name, self.bind_args(init, args, kwargs, drop_first=True, mod=owner.mod))
+            if isinstance(target, PartialV):
+                return self.apply(target.target, target.args + list(args), dict(target.kwargs, **kwargs), e, mod)
             if isinstance(target, PyFunc):
                 return target.fn(args, kwargs)
             if isinstance(target, Lenient):
@@ -1845,6 +1893,8 @@ class Ev:
                     return x.args["of"]
                 raise _Raise(e, "time data does not match format %r" % fmt.text(), "ValueError")
             raise AnalysisError("datetime.strptime(%r, %r) at line %d" % (x, fmt, e.lineno))
+        if name in ("functools.partial", "partial") and args:
+            return PartialV(args[0], args[1:], kwargs)
         if name in ("operator.attrgetter", "attrgetter") and len(args) == 1 and isinstance(args[0], Str) and args[0].is_lit():
             a0 = args[0].text()
 
